@@ -140,6 +140,8 @@ def _body(ts, proc, s, entry):
         return nested(ts, proc, s, entry)
     if kind == "child":
         return spawn_child(ts, proc, s)
+    if kind == "nested_leave":
+        return nested_leave(ts, proc, s)
     if kind == "sems":
         return sems(ts, proc, s)
     if kind == "lock_token":
@@ -181,6 +183,16 @@ def nested(ts, proc, s, entry):
     elif end == "nowait":
         ex.shutdown(wait=False)
     return out
+
+
+def nested_leave(ts, proc, s):
+    """start a nested executor with a long job and return without waiting for it."""
+    from loky import ProcessPoolExecutor
+    ex = ProcessPoolExecutor(max_workers=1)
+    f = ex.submit(call, dict(id=ts["id"] + 5000, kind="work", dur=ts.get("sub_dur", 1e6)))
+    proc.info.setdefault("kept", []).append((ex, f))
+    s.sleep(ts.get("settle", 0.5))     # let the nested worker start
+    return value_of(ts)
 
 
 def child_main(d):
